@@ -142,6 +142,8 @@ func checkC11(c *Ctx) {
 	c.connectValidation()
 	c.connackConstants()
 	c.headerTypeCheck()
+	// what is authenticated is what this connection sent
+	c.connectDecodedIntoFreshMessage()
 }
 
 // closeOnRefusal: P6 - every return without a service carries a non-nil error, and
